@@ -28,7 +28,7 @@ if [ $# -eq 0 ]; then
       cmd/serf/command/agent/event_handler.go|cmd/serf/command/agent/invoke.go) props="$props C27";;
       cmd/serf/command/agent/gated_writer.go|cmd/serf/command/agent/log_writer.go) props="$props C29";;
       cmd/serf/command/agent/config.go) props="$props C27 C31";;
-      cmd/serf/command/agent/agent.go) props="$props C22 C30";;
+      cmd/serf/command/agent/agent.go) props="$props C22 C25 C27 C30";;
       cmd/serf/command/agent/command.go) props="$props C27 C29";;
     esac
   done
